@@ -379,8 +379,15 @@ def _run_twm(case):
     if r.ok and not r.inconclusive:
         r2 = _check_fallback_subs("timeout_with_mapper", case, p, oth, list(zip(outs, logs)), cls)
         if r2 is not None:
-            return r2
-        r.classes = tuple(sorted(set(r.classes) | set(cls)))
+            r = r2
+        else:
+            r.classes = tuple(sorted(set(r.classes) | set(cls)))
+    if not r.ok and not r.sig.startswith("escaped"):
+        # root-cause bucket: a timeout observable that emits and completes inside its own subscribe() call
+        for q in tos + ([first] if first is not None else []):
+            f = first_fire(q["tl"])
+            if q["kind"] == "sync" and f is not None and f[0] == 0 and len(conform(q["tl"])) > 1:
+                r.sig = "sync-timeout-observable-multi-event|timeout_with_mapper"
     return r
 
 
@@ -444,8 +451,8 @@ def checks(tier):
     T = 16
     sh = {"quick": 4, "thorough": 16}
     return [
-        Check("window", _run_window, strategy=_window_cases(), examples={"quick": 2400, "thorough": T * 20000}, shards=sh),
-        Check("last", _run_last, strategy=_last_cases(), examples={"quick": 2400, "thorough": T * 20000}, shards=sh),
-        Check("timeout", _run_timeout, strategy=_timeout_cases(), examples={"quick": 2400, "thorough": T * 20000}, shards=sh),
+        Check("window", _run_window, strategy=_window_cases(), examples={"quick": 2400, "thorough": T * 12000}, shards=sh),
+        Check("last", _run_last, strategy=_last_cases(), examples={"quick": 2400, "thorough": T * 12000}, shards=sh),
+        Check("timeout", _run_timeout, strategy=_timeout_cases(), examples={"quick": 2400, "thorough": T * 12000}, shards=sh),
         Check("timeout_with_mapper", _run_twm, strategy=_twm_cases(), examples={"quick": 1600, "thorough": T * 12000}, shards=sh),
     ]
